@@ -111,6 +111,12 @@ def mutants_at(base, pos: int):
 
     if kind == "options":
         yield "options-missing", drop()
+        if len(base["frames"]) > 1:
+            # ... although a later frame opens with an options row
+            for k in range(1, min(len(base["frames"]), 3)):
+                fr = drop()
+                fr[k] = [row, *fr[k]]
+                yield "options-missing-but-sent-later", fr
         for v in (3, 99):
             yield f"version-{v}", replace(jwire.mkrow("options", {**row["v"], "version": v}))
         for p in (0, 7):
